@@ -645,3 +645,78 @@ Example C14_server_nonvacuous :
    DevServer.r_restored r = false /\ DevServer.r_ran r = true /\ DevServer.sv_schemas (DevServer.r_srv r) = [DevServer.mkSch 2 []]) /\
   DevServer.snapshot_my (DevServer.mkSrv [] None) [] = (DevServer.SnapOk DevServer.RRealm, []).
 Proof. vm_compute. repeat split. Qed.
+
+(** ------------------------------------------------------------------------
+    Round 5 (goal 1), PostgreSQL (Dev/DevServerPg.v).  [bound] = Driver.schema
+    (the search_path of the dev URL).  "Contains anything"
+    ([holds_content_pg]): a bound connection owns its schema (a table in it);
+    an unbound one owns the database -- any schema other than an empty
+    "public" (schema id 0). *)
+From Atlas Require Dev.DevServerPg Dev.DevServerPgProofs.
+
+Theorem C14_refuse_untouched_pg :
+  forall (bound : option N) (sc : DevServer.scenario) (srv : DevServer.server) (fs : list bool),
+  DevServerPg.holds_content_pg bound srv = true ->
+  let r := DevServerPg.run_scenario_pg bound sc srv fs in
+  DevServer.r_trace r = [] /\ DevServer.r_srv r = srv /\ DevServer.r_ran r = false /\
+  (DevServer.r_out r = DevServer.SRefused \/ DevServer.r_out r = DevServer.SSnapErr).
+Proof.
+  intros bound sc srv fs H. apply DevServerPgProofs.declined_scenario_pg. apply DevServerPgProofs.snapshot_pg_declines. exact H.
+Qed.
+Print Assumptions C14_refuse_untouched_pg.
+
+Theorem C14_restore_always_runs_pg :
+  forall (bound : option N) (sc : DevServer.scenario) (srv : DevServer.server) (fs fs1 : list bool) (rk : DevServerPg.restore_pg_kind),
+  DevServerPg.snapshot_pg bound srv fs = (DevServerPg.PSnapOk rk, fs1) ->
+  DevServer.r_ran (DevServerPg.run_scenario_pg bound sc srv fs) = true.
+Proof. intros bound sc srv fs fs1 rk. exact (DevServerPgProofs.accepted_restore_runs_pg bound sc srv fs rk fs1). Qed.
+Print Assumptions C14_restore_always_runs_pg.
+
+(** an unbound connection is accepted exactly on a database without schemas or
+    with an empty "public" only, and then -- every scenario, every script /
+    desired realm incl. DROP SCHEMA public, no call failing -- handed back as
+    it was found: without schemas, resp. with the empty "public" recreated *)
+Theorem C14_handed_back_empty_pg :
+  forall (with_public : bool) (sc : DevServer.scenario) (cur : option N),
+  let start := DevServerPgProofs.start_of with_public in
+  let r := DevServerPg.run_scenario_pg None sc (DevServer.mkSrv start cur) [] in
+  DevServer.r_ran r = true /\ DevServer.r_restored r = true /\ DevServer.sv_schemas (DevServer.r_srv r) = start /\ DevServer.r_fs r = [].
+Proof. exact DevServerPgProofs.handed_back_realm_pg. Qed.
+Print Assumptions C14_handed_back_empty_pg.
+
+Theorem C14_accepted_realm_pg :
+  forall (srv : DevServer.server) (fs fs1 : list bool) (with_public : bool),
+  DevServerPg.snapshot_pg None srv fs = (DevServerPg.PSnapOk (DevServerPg.PRealm with_public), fs1) ->
+  DevServer.sv_schemas srv = DevServerPgProofs.start_of with_public.
+Proof. intros srv fs fs1 wp. exact (DevServerPgProofs.accepted_realm_pg srv fs wp fs1). Qed.
+Print Assumptions C14_accepted_realm_pg.
+
+(** bound connections: same two counterexamples as for MySQL *)
+Definition ex_bound_pg : DevServer.server := DevServer.mkSrv [DevServer.mkSch 0 []] (Some 0%N).
+Theorem C14_handed_back_empty_bound_pg_refuted :
+  (exists body, let r := DevServerPg.run_sess_pg (Some 0%N) body ex_bound_pg [] in
+     DevServer.r_out r = DevServer.SOk /\ DevServer.r_restored r = true /\
+     DevServer.sv_schemas (DevServer.r_srv r) = [DevServer.mkSch 0 []; DevServer.mkSch 2 [1%N]]) /\
+  (exists body, let r := DevServerPg.run_sess_pg (Some 0%N) body ex_bound_pg [] in
+     DevServer.r_out r = DevServer.SOk /\ DevServer.r_ran r = true /\ DevServer.r_restored r = false /\
+     DevServer.sv_schemas (DevServer.r_srv r) = []).
+Proof.
+  split.
+  - exists [DevServer.SCs 2 false; DevServer.SCt (Some 2%N) 1]. vm_compute. repeat split.
+  - exists [DevServer.SDs 0]. vm_compute. repeat split.
+Qed.
+Print Assumptions C14_handed_back_empty_bound_pg_refuted.
+
+Example C14_server_pg_nonvacuous :
+  (* refused: unbound, public with a table / a second schema; accepted: unbound with the empty public;
+     a script that drops public and creates s2 with a table: restore drops s2 and recreates public;
+     a connection bound to a schema that does not exist: Snapshot fails, nothing issued *)
+  DevServerPg.holds_content_pg None (DevServer.mkSrv [DevServer.mkSch 0 [1%N]] (Some 0%N)) = true /\
+  DevServerPg.holds_content_pg None (DevServer.mkSrv [DevServer.mkSch 0 []; DevServer.mkSch 1 []] (Some 0%N)) = true /\
+  DevServerPg.holds_content_pg None (DevServer.mkSrv [DevServer.mkSch 0 []] (Some 0%N)) = false /\
+  DevServer.r_trace (DevServerPg.run_sess_pg None [DevServer.SDs 0; DevServer.SCs 2 false; DevServer.SCt (Some 2%N) 1] (DevServer.mkSrv [DevServer.mkSch 0 []] (Some 0%N)) [])
+    = [DevServer.EDs 0; DevServer.ECs 2; DevServer.ECt 2 1; DevServer.EDs 2; DevServer.ECs 0] /\
+  DevServer.r_out (DevServerPg.run_sess_pg (Some 3%N) [] (DevServer.mkSrv [DevServer.mkSch 0 []] (Some 3%N)) []) = DevServer.SSnapErr /\
+  (* the deferred search_path reset of InspectRealm fails (call 5 of Snapshot): Snapshot fails *)
+  DevServer.r_out (DevServerPg.run_sess_pg None [] (DevServer.mkSrv [DevServer.mkSch 0 []] (Some 0%N)) (DevServer.fault_stream [5] 10)) = DevServer.SSnapErr.
+Proof. vm_compute. repeat split. Qed.
